@@ -116,7 +116,19 @@ func (w *World) absWhole(full []byte, from, to string) M {
 	case strings.HasPrefix(s, "?OTR:"):
 		return w.absEncoded(full, from, to)
 	case strings.HasPrefix(s, "?OTR Error:"):
-		return M{"t": "E"}
+		// which error code the text was generated for (the harness's handler names the code in its text)
+		code := "other"
+		switch {
+		case strings.Contains(s, "verif-error-ErrorCodeMessageUnreadable"):
+			code = "unreadable"
+		case strings.Contains(s, "verif-error-ErrorCodeMessageMalformed"):
+			code = "malformed"
+		case strings.Contains(s, "verif-error-ErrorCodeEncryptionError"):
+			code = "encryption"
+		case strings.Contains(s, "verif-error-"):
+			code = "unexpected"
+		}
+		return M{"t": "E", "code": code}
 	case strings.HasPrefix(s, "?OTR?") || strings.HasPrefix(s, "?OTRv"):
 		// a text the user typed that begins like a query: to the sender it is a text, to whoever
 		// receives it a query (q = the versions it names)
